@@ -833,6 +833,11 @@ class ConstructedPayloadDecoderBase(AbstractConstructedPayloadDecoder):
                                 namedType.openType.name
                             )
 
+                            if not governingValue.isValue:
+                                # nothing governs the field (an OPTIONAL
+                                # component that is absent): it stays as it is
+                                continue
+
                             try:
                                 openType = openTypes[governingValue]
 
@@ -1064,6 +1069,11 @@ class ConstructedPayloadDecoderBase(AbstractConstructedPayloadDecoder):
                             governingValue = asn1Object.getComponentByName(
                                 namedType.openType.name
                             )
+
+                            if not governingValue.isValue:
+                                # nothing governs the field (an OPTIONAL
+                                # component that is absent): it stays as it is
+                                continue
 
                             try:
                                 openType = openTypes[governingValue]
